@@ -32,8 +32,10 @@ RULE = ("strings rendered from semantic descriptions: (a) lists/tuples/bare numb
         "brackets, dangling / double sign, ragged nesting) that must be rejected; (d) one- or two-character corruptions of such strings (deleted, inserted, "
         "replaced character); (e) arrays given directly to get_increments/get_between_radii. A case is non-trivial when the "
         "implementation accepts it with at least one radius (or, for (e), returns boundaries); distinct by text / array. "
-        "arange cases whose exact quotient (stop-start)/step is within 1e-9 of an integer while an argument is not exactly "
-        "representable in binary are excluded and counted (numpy decides the length in floating point).")
+        "range/arange with the stop exactly on the lattice start + n*step for 1-, 2-, 3-decimal parameters (400 per unit) are a "
+        "class of their own. np.arange decides its length as ceil((stop-start)/step) in float64: a case is included when that "
+        "count on the user's own numbers equals the exact rational count from the decimal literals (then the expected grid is the "
+        "exact progression x10 and no element equals the excluded stop), and excluded and counted only when the two disagree.")
 CHUNK = 500
 
 TOL_REL = 1e-12
@@ -321,20 +323,60 @@ def exactly_binary(fr: Fraction) -> bool:
     return d & (d - 1) == 0 and d <= 2 ** 20 and abs(fr) < 2 ** 20
 
 
+def arange_float_len(start, stop, step):
+    """the element count numpy computes for np.arange on the numbers the user wrote: len = ceil((stop - start) / step)
+    evaluated in float64 on the doubles nearest to the decimal literals (what the unchanged code does; checked against
+    len(np.arange(...)) on 200 000 parameterisations of this generator's domain, and on every run for the excluded cases, see `compare`)"""
+    fa, fb, fs = float(start), float(stop), float(step)
+    return max(int(np.ceil((fb - fa) / fs)), 0)
+
+
 def arange_excluded(start, stop, step):
-    """numpy decides len = ceil((stop-start)/step) in floating point: leave out the cases it may decide differently"""
+    """numpy decides len = ceil((stop-start)/step) in floating point.  The case is *determined* - and included - when the
+    exact rational count (from the decimal literals) and the float64 count on the user's own numbers agree; it is left
+    out (and counted) only when they disagree (range(1, 1.3, 0.1): exact 3, float 4), or when an element that is
+    mathematically zero is computed from a start/step without exact binary representation (it may come out as -1e-17
+    and trip the non-negativity assertion)."""
     if step == 0:
         return False
     q = (stop - start) / step
-    if abs(q - round(q)) >= Fraction(1, 10 ** 9):
-        # elements that are mathematically zero but computed as start + k*step in floating point may come out as -1e-17
-        if all(exactly_binary(x) for x in (start, step)):
-            return False
-        n = max(math.ceil(q), 0)
-        return any(start + k * step == 0 for k in range(1, min(n, 100000)))
-    if all(exactly_binary(x) for x in (start, stop, step)):
+    n = max(math.ceil(q), 0)
+    if arange_float_len(start, stop, step) != n:
+        return True
+    if all(exactly_binary(x) for x in (start, step)):
         return False
-    return True
+    return any(start + k * step == 0 for k in range(1, min(n, 100000)))
+
+
+def gen_lattice(rng):
+    """range/arange whose stop lies exactly on the lattice start + n*step (so that it is excluded and the count is n), with
+    1-, 2- or 3-decimal parameters, ascending and descending, 1-3 arguments"""
+    d = rng.choice([1, 2, 2, 2, 3])
+    nargs = rng.choice([1, 2, 3, 3, 3, 3, 3, 3])
+    n = rng.choice([1, 2, 3, 3, 4, 5, 6, 7, 8, 10, 12, 15, 20, 30])
+    if nargs == 1:
+        a, st, b = (0, 0), (1, 0), (rng.randint(0, 12), 0)
+        args = [signed(rng, b)[0]]
+    elif nargs == 2:
+        a = (rng.randint(0, 5 * 10 ** d), d)
+        st = (1, 0)
+        n = rng.randint(0, 8)
+        b = (a[0] + n * 10 ** d, d)
+        args = [signed(rng, a)[0], signed(rng, b)[0]]
+    else:
+        j = rng.randint(1, rng.choice([9, 30, 120]))
+        if rng.random() < 0.25:
+            # descending: start high, stop = start - n*step >= 0
+            lo = rng.randint(0, 3 * 10 ** d)
+            a, st, b = (lo + n * j, d), (-j, d), (lo, d)
+        else:
+            i = rng.randint(0, rng.choice([9, 50, 500]))
+            a, st, b = (i, d), (j, d), (i + n * j, d)
+        args = [signed(rng, a)[0], signed(rng, b)[0], signed(rng, st)[0]]
+    intent = {"form": "arange", "start": core.rat(dec_frac(a)), "stop": core.rat(dec_frac(b)), "step": core.rat(dec_frac(st)),
+              "lattice": True}
+    s = call_text(rng, rng.choice(RANGE_PREFIX), args, close=rng.random() < 0.97, suffixes=SUFFIX_NOLIN)
+    return {"kind": "str", "s": s, "alts": [], "intent": intent}
 
 
 def gen_arange(rng, big=False):
@@ -560,6 +602,10 @@ CORPUS = [
     ("arange(1,3)", {"form": "arange", "start": "1/1", "stop": "3/1", "step": "1/1"}),
     ("range(2.5)", {"form": "arange", "start": "0/1", "stop": "5/2", "step": "1/1"}),
     ("range(1, 2, 0.25)", {"form": "arange", "start": "1/1", "stop": "2/1", "step": "1/4"}),
+    # stop exactly on the lattice start + n*step, two-decimal parameters: the stop is excluded (6, 3, 10 radii)
+    ("range(0.01, 0.07, 0.01)", {"form": "arange", "start": "1/100", "stop": "7/100", "step": "1/100", "lattice": True}),
+    ("arange(0.02, 0.14, 0.04)", {"form": "arange", "start": "1/50", "stop": "7/50", "step": "1/25", "lattice": True}),
+    ("range(0, 0.9, 0.09)", {"form": "arange", "start": "0/1", "stop": "9/10", "step": "9/100", "lattice": True}),
     ("range(5, 1)", {"form": "arange", "start": "5/1", "stop": "1/1", "step": "1/1"}),
     ("range(2, 5, 0)", {"form": "arange", "start": "2/1", "stop": "5/1", "step": "0/1"}),
     ("range(-1,3)", {"form": "arange", "start": "-1/1", "stop": "3/1", "step": "1/1"}),
@@ -584,9 +630,9 @@ def cases(ctx):
            "exact_alts": True, "intent": {"form": "list", "values": ["1/1", "2/1", "3/1"]}}
     big = not ctx.quick
     n = 2 if ctx.quick else 22
-    ctx.note("np.arange decides its length in floating point: cases whose exact quotient (stop-start)/step is within 1e-9 of an "
-             "integer with an argument that is not exactly representable in binary are excluded (branch "
-             "excluded_arange_float_boundary), e.g. range(1, 1.3, 0.1) has four elements")
+    ctx.note("np.arange decides its length as ceil((stop-start)/step) in float64 on the numbers the user wrote: a range/arange case "
+             "is included iff that count equals the exact rational count from the decimal literals; otherwise it is excluded "
+             "(branch excluded_arange_float_boundary), e.g. range(1, 1.3, 0.1) has four elements, range(0, 2.1, 0.3) eight")
     ctx.note("a float literal '-0.0' is not generated: it yields the array [-0.] whose bytes (hence grid_hash) differ from those "
              "of [0.] although both arrays compare equal; '-0' (the integer) is generated")
     ctx.note("texts outside the modelled fragment of Python's grammar (names, strings, comments, '_' in numbers, binary "
@@ -600,6 +646,8 @@ def cases(ctx):
         yield gen_arange(rng, big)
     for _ in range(150 * n):
         yield gen_equiv(rng)
+    for _ in range(400 * n):
+        yield gen_lattice(rng)
     for _ in range(500 * n):
         c = gen_fuzz(rng)
         if out_of_float_range(c):         # e.g. a deleted comma gluing digits onto an exponent: 10^615870 is not worth computing
@@ -760,6 +808,11 @@ def compare(ctx, case, out, mouts):
         return
     if form == "arange" and intended(case["intent"]) == "skip":
         ctx.branch("excluded_arange_float_boundary")
+        # the exclusion rests on the float64 count formula: keep validating it against the implementation
+        it = case["intent"]
+        fl = arange_float_len(core.unrat(it["start"]), core.unrat(it["stop"]), core.unrat(it["step"]))
+        if "grid" in out and len(out["grid"]) != fl:
+            ctx.corr("arange/float_count_formula", case, len(out["grid"]), fl)
         return
     if "err" in out or "err" in m:
         if out.get("err") != m.get("err"):
@@ -904,6 +957,12 @@ def oracle(ctx, case, out):
     if want != "fuzz":
         ex = sorted(10 * v for v in want)
         scale = max([abs(x) for x in ex] + [Fraction(0)])
+        if case["intent"]["form"] == "arange" and len(g) != len(ex):
+            ctx.fail("C16:arange_count", f"range/arange yields {len(g)} radii, the intended progression start + k*step before stop "
+                     f"has {len(ex)} (exact and float64 count on the written numbers agree)", case, [float(v) for v in ex], g)
+            return
+        if case["intent"].get("lattice"):
+            ctx.branch("lattice_stop_checked")
         if not vec_close(g, ex, scale):
             ctx.fail("C16:values", "radii are not the intended distances x 10 in ascending order", case, [float(v) for v in ex], g)
             return
